@@ -223,7 +223,58 @@ PRELUDES = {
     'fails-in-define': '(define-fun zz_g ((zz_a Int) (zz_c Bool)) Int '
                        '(+ zz_a zz_c))',
     'unbalanced': '(declare-fun zz_p () Bool)(assert (and zz_p',
+    # names that the scripts of SAME_NAME_SCRIPTS declare again
+    'same-names': '(declare-sort cl_S 0)(declare-sort cl_P 1)'
+                  '(declare-fun cl_f (Int) Int)(declare-fun cl_g (Int Real) '
+                  'Bool)(declare-fun cl_a () (Array Int Int))'
+                  '(declare-fun cl_b () (_ BitVec 4))(declare-fun cl_s () '
+                  'cl_S)(declare-fun cl_q () (cl_P Int))(declare-fun cl_x () '
+                  'Int)(assert (= (cl_f cl_x) (select cl_a 0)))',
 }
+
+# scripts that declare names of the 'same-names' prelude, read by a parser
+# of the environment that already has them: at the same sort the script
+# reads as it says; at another sort pySMT may refuse (one sort per name and
+# environment) but must not read the text at the old sort
+SAME_NAME_SCRIPTS = [
+    '(declare-fun cl_f (Int) Int)(assert (> (cl_f 1) 2))',
+    '(declare-fun cl_f (Int) Real)(assert (> (cl_f 1) 2.5))',
+    '(declare-fun cl_f (Real) Int)(assert (> (cl_f 1.5) 2))',
+    '(declare-fun cl_f (Int Int) Int)(assert (> (cl_f 1 2) 2))',
+    '(declare-fun cl_f () Int)(assert (> cl_f 2))',
+    '(declare-fun cl_g (Real Int) Bool)(assert (cl_g 1.5 2))',
+    '(declare-fun cl_g (Int Real) Bool)(assert (cl_g 2 1.5))',
+    '(declare-fun cl_a () (Array Int Real))(assert (> (select cl_a 0) 0.5))',
+    '(declare-fun cl_a () (Array Real Int))(assert (> (select cl_a 0.5) 0))',
+    '(declare-fun cl_b () (_ BitVec 5))(assert (= cl_b #b10101))',
+    '(declare-fun cl_b () (_ BitVec 4))(assert (= cl_b #b1010))',
+    '(declare-sort cl_S 0)(declare-fun cl_s () cl_S)(declare-fun cl_t () '
+    'cl_S)(assert (= cl_s cl_t))',
+    '(declare-sort cl_T 0)(declare-fun cl_s () cl_T)(declare-fun cl_t () '
+    'cl_T)(assert (= cl_s cl_t))',
+    '(declare-sort cl_P 1)(declare-fun cl_q () (cl_P Real))(declare-fun '
+    'cl_r () (cl_P Real))(assert (= cl_q cl_r))',
+    '(declare-fun cl_x () Real)(assert (> cl_x 0.5))',
+    '(declare-fun cl_x () Bool)(assert cl_x)',
+    '(define-fun cl_f ((a Int)) Real (+ (to_real a) 0.5))(assert (> (cl_f 1) 1.0))',
+    '(declare-fun cl_f (Int) Bool)(assert (cl_f 1))',
+    # uses that are well-sorted at the old sort too
+    '(declare-fun cl_f (Int) Real)(assert (= (cl_f 1) (cl_f 2)))',
+    '(declare-fun cl_f (Int) Bool)(assert (= (cl_f 1) (cl_f 2)))',
+    '(declare-fun cl_f (Int) (_ BitVec 3))(assert (distinct (cl_f 1) '
+    '(cl_f 2)))',
+    '(declare-fun cl_g (Int Real) Int)(assert (= (cl_g 1 2.5) (cl_g 2 0.5)))',
+    '(declare-fun cl_a () (Array Int Real))(assert (= (select cl_a 0) '
+    '(select cl_a 1)))',
+    '(declare-fun cl_a () (Array Int Bool))(assert (= (select cl_a 0) '
+    '(select cl_a 1)))',
+    '(declare-fun cl_b () (_ BitVec 5))(assert (= cl_b (bvnot cl_b)))',
+    '(declare-fun cl_b () (_ BitVec 1))(assert (= cl_b (bvneg cl_b)))',
+    '(declare-sort cl_P 1)(declare-fun cl_q () (cl_P Bool))(assert '
+    '(= cl_q cl_q))',
+    '(declare-fun cl_x () Real)(assert (= cl_x cl_x))',
+    '(declare-fun cl_x () (_ BitVec 2))(assert (distinct cl_x cl_x))',
+]
 
 
 def read_pysmt(text, prelude=None):
@@ -1002,6 +1053,26 @@ def run(rep):
                 label = classify(tree)
             rep.violation('%s/%s/%s' % (PROP, kind, label),
                           detail + '\n' + text, {'text': text})
+    for i, text in enumerate(SAME_NAME_SCRIPTS):
+        if i % rep.nshards != rep.shard:
+            continue
+        rep.case(key=hash(('same-names', text)))
+        ck.prelude = 'same-names'
+        try:
+            kind, detail = ck.judge(None, text)
+        finally:
+            ck.prelude = None
+        rep.count('same_name_scripts')
+        if kind == 'rejected':
+            rep.count('same_name_scripts_refused')
+        elif kind == 'outside':
+            rep.notes.append('same-name script outside: %s' % detail)
+        elif kind:
+            rep.violation('%s/%s/same-name-after-other-script' % (PROP, kind),
+                          'after a script that declares the names at (other) '
+                          'sorts in the same environment: %s\n%s' % (
+                              detail, text), {'text': text,
+                                              'prelude': 'same-names'})
     for i, (cls, expect, text) in enumerate(CORNER_MALFORMED):
         if i % rep.nshards != rep.shard:
             continue
